@@ -26,6 +26,10 @@ TOPO_POOL = [
     {"kind": "cycle", "size": 5, "name": "5-cycle"},
     {"kind": "clique", "size": 2, "name": "2-clique-blue"},
     {"kind": "clique", "size": 3, "name": "tri-2"},
+    {"kind": "clique", "size": 2, "name": ""},
+    {"kind": "clique", "size": 2, "name": "2-clique "},
+    {"kind": "cycle", "size": 4, "name": "\u00e9-cycle"},
+    {"kind": "clique", "size": 3, "name": "3"},
 ]
 
 
